@@ -478,6 +478,16 @@ def run(R):
                     lines.append("xor %d %d %d" % (as_, a + cellofs, 1 << (bit % 32)))
                     lines.append("walk %d" % addr); meta.append((ci, "flip L@%#x bit %d" % (a, bit)))
                     lines.append("clr")
+        if fmt in ("pfn32", "pfn64"):
+            # a table entry that consists only of bits the PTE mask removes is "not present", like an all-zero one
+            m = int(setup[2].split()[6])
+            real = [l for l in locs if l[0] >= 0]
+            if m and real:
+                lv = R.rng.randrange(len(real))
+                for val in sorted({m, m & -m, 0}):
+                    lines += ovr64(real[lv][0], real[lv][1], val, be) if real[lv][2] == 8 else ["ovr %d %d %d" % (real[lv][0], real[lv][1], val & 0xffffffff)]
+                    lines.append("walk %d" % addr); meta.append((ci, "%s entry %#x under mask %#x at read %d" % (fmt, val, m, lv)))
+                    lines.append("clr")
         if fmt == PPC64:
             # plant one crafted entry (every descriptor kind) at one of the levels the base walk read; in the
             # table-pointer memory also complete the deepest walk with a present last-level PTE
